@@ -810,19 +810,19 @@ class _Gen:
         if eo in (list, typing.List):                       # a table: list of rows
             inner = (typing.get_args(elem) or (typing.Any,))[0]
             if typing.get_origin(inner) in (list, typing.List):      # list of tables (EpubChapter.tables)
-                k = ctx.choice(f"{name}_n_tables", 3)
+                k = ctx.choice(f"{name}_n_tables", 2 if self.bulk else 3)
                 return [self._rows(f"{name}{i}") for i in range(k)]
             return self._rows(name)
         if eo in (dict, typing.Dict):                       # XlsSheet rows keyed by header text
             keysets = ((), ("a",), ("a", "b"), ("b",))
             k = ctx.choice(f"{name}_n_rows", ctx.params.get("max_rows", 3) + 1)
             return [{h: "v" for h in keysets[ctx.choice(f"{name}_row{i}_keys", len(keysets))]} for i in range(k)]
-        k = ctx.choice(f"{name}_n", 3)
+        k = ctx.choice(f"{name}_n", 2 if self.bulk else 3)
         return [self.element(name, elem, i) for i in range(k)]
 
     def _rows(self, name):
         ctx = self.ctx
-        k = ctx.choice(f"{name}_n_rows", ctx.params.get("max_rows", 3) + 1)
+        k = ctx.choice(f"{name}_n_rows", (1 if self.bulk else ctx.params.get("max_rows", 3)) + 1)
         lens = [ctx.fresh_int(f"{name}_row{i}_len", 0, 2 ** 31) for i in range(k)]
         if ctx.concrete:
             ctx.assume(all(x <= 64 for x in lens))
@@ -933,7 +933,7 @@ def k1_accessors(ctx):
     x = g.build()
     if cls.__name__ == "RtfImage":
         ctx.hash_universe = set(cls._CONTENT_TYPES)
-    with ctx.shadow(dt, len=S.sym_len, max=S.sym_max):
+    with ctx.shadow(dt, len=S.sym_len):
         try:
             r = getattr(x, acc)()
             r2 = None
@@ -1006,3 +1006,292 @@ def _k1_targets():
             out.append(getattr(cls, a))
     out.append(_dt()._odf_length_to_px)
     return out
+
+
+# =======================================================================================
+# K2  file metadata from the path argument
+# =======================================================================================
+
+_CWD = "/cwd"
+_SYMPATH = {}
+
+
+def _sym_str(x=""):
+    """the name ``str`` as seen from lifted / shadowed code: proxies stay proxies"""
+    if isinstance(x, S.CharStr):
+        return x
+    if hasattr(x, "__symstr__"):
+        return x.__symstr__()
+    return S.CharStr(str(x))
+
+
+def _sympath_class():
+    """pathlib.PurePosixPath on symbolic strings: the methods populate_from_path uses (parsing, name,
+    suffix, parent, str) are pathlib's OWN source lifted by vf/lift.py (string literals -> symbolic
+    string constants); the flavour module is vf/pathmodel.py (posixpath's own source, lifted).  Only
+    the constructor and the two file-system queries are written here (the environment model)."""
+    if "cls" in _SYMPATH:
+        return _SYMPATH["cls"]
+    import pathlib
+    from vf import lift, pathmodel
+    pp = pathmodel.PosixPath(cwd=_CWD)
+
+    class Flavour:
+        sep = S.CharStr("/")
+        altsep = None
+
+        @staticmethod
+        def splitroot(p):
+            return pp._splitroot(pp._in(p))
+
+        @staticmethod
+        def splitdrive(p):
+            return pp.splitdrive(p)
+
+        @staticmethod
+        def join(a, *p):
+            return pp.join(a, *p)
+
+    class SymPath:
+        _flavour = Flavour
+        env = None                      # per-path environment (exists answers), set by the harness
+
+        def __init__(self, *args):
+            paths = []
+            for a in args:
+                if isinstance(a, SymPath):
+                    paths.extend(a._raw_paths)
+                elif isinstance(a, (S.CharStr, str)):
+                    paths.append(S.CharStr(a) if isinstance(a, str) else a)
+                else:
+                    raise TypeError("argument should be a str or an os.PathLike object")
+            self._raw_paths = paths
+
+        def __symstr__(self):
+            return self.__str__()
+
+        def __fspath__(self):
+            return self.__str__()
+
+        # -- environment ------------------------------------------------------------------
+        def exists(self):
+            return SymPath.env.exists(self)
+
+        def resolve(self, strict=False):
+            # no symbolic links in the modelled file system: resolve == absolute + normalised
+            return SymPath(pp.abspath(self.__str__()))
+
+    ns = dict(sys=types.SimpleNamespace(intern=lambda x: x), str=_sym_str)
+    P = pathlib.PurePath
+    for name in ("_parse_path", "_load_parts", "_from_parsed_parts", "_format_parsed_parts", "__str__",
+                 "drive", "root", "_tail", "name", "suffix", "parent", "with_segments"):
+        raw = inspect.getattr_static(P, name)
+        if isinstance(raw, property):
+            setattr(SymPath, name, property(lift.lift(raw.fget, **ns)))
+        elif isinstance(raw, classmethod):
+            setattr(SymPath, name, classmethod(lift.lift(raw.__func__, **ns)))
+        else:
+            setattr(SymPath, name, lift.lift(raw, **ns))
+    _SYMPATH["cls"] = SymPath
+    _SYMPATH["targets"] = [getattr(inspect.getattr_static(P, n), "fget", None) or
+                           getattr(inspect.getattr_static(P, n), "__func__", None) or
+                           inspect.getattr_static(P, n)
+                           for n in ("_parse_path", "name", "suffix", "parent", "_format_parsed_parts")]
+    return SymPath
+
+
+def _sympath_selftest():
+    """translator validation: lifted pathlib == pathlib.PurePosixPath on a lattice of paths"""
+    if _SYMPATH.get("validated"):
+        return _SYMPATH["validated"]
+    import pathlib
+    SP = _sympath_class()
+    segs = ["", ".", "..", "a", "b.c", ".h", "x.", "a!b", "d.e.f", "é"]
+    paths = set()
+    for a in segs:
+        for b in segs:
+            for lead in ("", "/", "//", "///"):
+                for trail in ("", "/"):
+                    paths.add(lead + a + "/" + b + trail)
+                    paths.add(lead + a + trail)
+    n = 0
+    for p in sorted(paths):
+        real, sym = pathlib.PurePosixPath(p), SP(p)
+        got = (str(sym.name), str(sym.suffix), str(sym.__str__()), str(sym.parent.__str__()),
+               str(sym.resolve().__str__()), str(sym.parent.resolve().__str__()))
+        import posixpath
+        exp = (real.name, real.suffix, str(real), str(real.parent),
+               posixpath.normpath(posixpath.join(_CWD, str(real))),
+               posixpath.normpath(posixpath.join(_CWD, str(real.parent))))
+        if got != exp:
+            raise AssertionError(f"lifted pathlib differs on {p!r}: {got} vs {exp}")
+        n += 1
+    _SYMPATH["validated"] = n
+    return n
+
+
+class _FsEnv:
+    """the file system as far as populate_from_path can see it: one answer per exists() question,
+    in the order asked (the file first, then its folder)"""
+
+    def __init__(self, answers):
+        self.answers = list(answers)
+        self.asked = 0
+
+    def exists(self, p):
+        i = min(self.asked, len(self.answers) - 1)
+        self.asked += 1
+        return self.answers[i]
+
+
+def _ref_components(path):
+    """(absolute?, components) of a POSIX path, written from POSIX pathname resolution: empty
+    components and '.' components carry no meaning.  Works on str and CharStr (comparisons fork)."""
+    n = len(path)
+    lead = 0
+    while lead < n and path[lead] == "/":
+        lead += 1
+    comps = []
+    for c in path.split("/"):
+        if len(c) == 0:
+            continue
+        if len(c) == 1 and c == ".":
+            continue
+        comps.append(c)
+    return lead, comps
+
+
+def _ref_extension_candidates(name):
+    """the extension of a file name: from its last dot on, when that dot is neither the first nor
+    the last character.  For names whose only dots lead or trail ('.bashrc', 'a.', '..a') conventions
+    differ (none / the dot / the rest): every convention is accepted."""
+    n = len(name)
+    last = -1
+    for i in range(n - 1, -1, -1):
+        if name[i] == ".":
+            last = i
+            break
+    if last < 0:
+        return [""]
+    lead = 0
+    while lead < n and name[lead] == ".":
+        lead += 1
+    if last == n - 1:
+        return ["", "."]
+    if last < lead:                       # only leading dots before the last one: '.bashrc', '..a'
+        return ["", name[last:]] if last > 0 else [""]
+    return [name[last:]]
+
+
+def _ref_resolve(lead, comps, cwd):
+    """absolute, normalised form in a file system without symbolic links"""
+    stack = [] if lead else [c for c in cwd.split("/") if c]
+    for c in comps:
+        if len(c) == 2 and c == "..":
+            if stack:
+                stack.pop()
+        else:
+            stack.append(c)
+    root = "//" if lead == 2 else "/"
+    out = root
+    for i, c in enumerate(stack):
+        out = out + ("/" if i else "") + c
+    return out
+
+
+def _ref_join(lead, comps):
+    root = "" if lead == 0 else ("//" if lead == 2 else "/")
+    out = root
+    for i, c in enumerate(comps):
+        out = out + ("/" if i else "") + c
+    return out
+
+
+_K2_SINGLES = "/.ab!é "
+
+
+def k2_path_metadata(ctx):
+    dt = _dt()
+    import pathlib
+    ctx.decision_memo = {}
+    n = ctx.params["len"]
+    md = dt.FileMetadataInterface()
+    if n < 0:
+        # no path given
+        try:
+            md.populate_from_path(None)
+        except Exception as e:
+            ctx.fail("populate_from_path-raised", exc=type(e).__name__)
+        vals = (md.filename, md.file_extension, md.file_path, md.folder_path)
+        if ctx.perturb == "none_gives_empty_strings":
+            ctx.require(all(v == "" for v in vals), "twin")
+        ctx.require(all(v is None for v in vals), "path-fields-not-none-without-path", got=repr(vals))
+        return
+    path = _alphabet(ctx, ctx.fresh_chars("path", n, 1, 255), _K2_SINGLES)
+    file_exists = ctx.flag("file_exists")
+    folder_exists = ctx.flag("folder_exists")
+    ctx.assume(folder_exists or not file_exists)
+    lead, comps = _ref_components(path)
+    # the path names a file: it has a final component, which is not '..'
+    ctx.assume(len(comps) > 0)
+    last = comps[-1]
+    ctx.assume(not (len(last) == 2 and last == ".."))
+    as_object = ctx.flag("given_as_path_object")
+    env = _FsEnv([file_exists, folder_exists])
+    try:
+        if ctx.concrete:
+            arg = pathlib.Path(path) if as_object else path
+            cwd = _CWD
+            import posixpath
+            with ctx.stub(pathlib.Path, exists=lambda self: env.exists(self),
+                          resolve=lambda self, strict=False: pathlib.Path(
+                              posixpath.normpath(posixpath.join(cwd, str(self))))):
+                md.populate_from_path(arg)
+        else:
+            _sympath_selftest()
+            SP = _sympath_class()
+            SP.env = env
+            arg = SP(path) if as_object else path
+            with ctx.shadow(dt, Path=SP, str=_sym_str):
+                md.populate_from_path(arg)
+    except S.Unsupported:
+        raise
+    except Exception as e:
+        ctx.fail("populate_from_path-raised", exc=type(e).__name__, msg=str(e)[:80])
+        return
+    for nm in ("filename", "file_extension", "file_path", "folder_path"):
+        ctx.require(_is_text(getattr(md, nm)), "path-field-not-str", field=nm, got=type(getattr(md, nm)).__name__)
+    # file name = the final component
+    ctx.require(_seq_eq(md.filename, last), "filename-is-not-the-final-component",
+                filename=_show(md.filename), path=_show(path))
+    # extension
+    cands = _ref_extension_candidates(last)
+    if ctx.perturb == "extension_without_dot":
+        cands = [c[1:] if len(c) else c for c in cands]
+    oks = [_seq_eq(md.file_extension, c) for c in cands]
+    ok = True if any(o is True for o in oks) else [o for o in oks if o is not False]
+    ctx.require(ok if ok is True else (z3.Or(*ok) if ok else False), "extension-differs-from-file-name-suffix",
+                extension=_show(md.file_extension), path=_show(path))
+    # folder = everything before the final component (resolved against the working directory when
+    # it exists); a relative single-component path has the current directory as folder
+    if folder_exists:
+        want = [_ref_resolve(lead, comps[:-1], _CWD)]
+    else:
+        j = _ref_join(lead, comps[:-1])
+        want = [j] if len(j) else [".", ""]
+    if ctx.perturb == "folder_is_full_path":
+        want = [_ref_join(lead, comps)]
+    oks = [_seq_eq(md.folder_path, w) for w in want]
+    ok = True if any(o is True for o in oks) else [o for o in oks if o is not False]
+    ctx.require(ok if ok is True else (z3.Or(*ok) if ok else False), "folder-differs-from-path-without-final-component",
+                folder=_show(md.folder_path), path=_show(path), folder_exists=folder_exists)
+
+
+def _k2_parts(tier):
+    top = 6 if tier == "quick" else 8
+    return [{"len": n} for n in range(-1, top + 1) if n != 0]
+
+
+def _k2_targets():
+    _sympath_class()
+    return [_dt().FileMetadataInterface.populate_from_path] + _SYMPATH["targets"]
